@@ -216,7 +216,7 @@ func checkC02(c *Ctx) {
 	nMatch := 0
 	for _, cs := range Calls(parse) {
 		f := Callee(cs.Common())
-		if f == nil || Origin(f).Name() != "Match" || !strings.Contains(Origin(f).String(), "internal/opcode.Matcher") {
+		if f == nil || NameOf(Origin(f)) != "Match" || !strings.Contains(Origin(f).String(), "internal/opcode.Matcher") {
 			continue
 		}
 		nMatch++
